@@ -92,6 +92,21 @@ Fill(n, o, s, hit, top) ==
   /\ log' = Append(log, FillEntry(n, o, s, hit, top))
   /\ UNCHANGED env
 
+RECURSIVE SumF(_, _)
+SumF(f, S) == IF S = {} THEN 0 ELSE LET x == CHOOSE x \in S : TRUE IN f[x] + SumF(f, S \ {x})
+(* an ascending visit of the whole map: ents = the token entries in visiting order, other = the
+   number of non-token (bulk) entries, asc = the keys came in strictly ascending order *)
+BulkCount == LET F == {i \in 1..Len(log) : log[i].t = "fill"}
+             IN SumF([i \in F |-> log[i].n - Cardinality(log[i].hit)], F)
+VisitOK(ents, other, asc) ==
+  /\ asc /\ other = BulkCount
+  /\ \A i \in 1..(Len(ents) - 1) : ents[i].k < ents[i + 1].k
+  /\ \A k \in Keys : IsLive(k) => \E i \in 1..Len(ents) : ents[i].k = k
+  /\ \A i \in 1..Len(ents) :
+       LET k == ents[i].k IN
+       /\ k \in Keys /\ m[k].st # "absent"
+       /\ IF IsLive(k) THEN ents[i].o = m[k].o /\ ents[i].s = m[k].s ELSE ents[i].s < 0
+
 (* Reload / Freeze: nothing may change *)
 Reload == UNCHANGED <<m, cnt, log, env>>
 
@@ -127,8 +142,6 @@ Replay(lg, ks) == ReplayFrom(lg, 1, [c |-> Cnt0, lv |-> [k \in ks |-> 0]])
 
 (* newNeedleMapMetricFromIndexFile: a walk that counts distinct keys as files and
    every further entry of a key as a deletion *)
-RECURSIVE SumF(_, _)
-SumF(f, S) == IF S = {} THEN 0 ELSE LET x == CHOOSE x \in S : TRUE IN f[x] + SumF(f, S \ {x})
 SetMax(S) == CHOOSE x \in S : \A y \in S : y <= x
 LaterSame(lg, i, k) == \E j \in (i + 1)..Len(lg) : lg[j].t # "fill" /\ lg[j].k = k
 Walk(lg) ==
